@@ -201,17 +201,20 @@ def plan(tier, seed):
     shards = []
     nsh = 32
 
-    def grid(n_lo, n_hi, k, stride, tag):
-        for i in range(nsh):
+    def grid(n_lo, n_hi, k, stride, tag, keyvar=None, parts=nsh):
+        for i in range(parts):
             shards.append({"kind": "grid:" + tag, "n_lo": n_lo, "n_hi": n_hi,
                            "k": k, "stride": stride, "offset": seed,
-                           "part": i, "parts": nsh})
+                           "part": i, "parts": parts, "keyvar": keyvar})
     if tier == "quick":
         grid(1, 3, 1, 1, "n3k1")
         grid(1, 3, 2, 1, "n3k2")
         grid(4, 4, 1, 1, "n4k1")
         grid(4, 4, 2, 12, "n4k2")
         grid(1, 3, 3, 24, "n3k3")
+        for kv in range(len(gdocs.KEY_VARIANTS)):
+            grid(1, 4, 1, 1, "kv%d-n4k1" % kv, keyvar=kv, parts=1)
+            grid(1, 3, 2, 1, "kv%d-n3k2" % kv, keyvar=kv, parts=4)
         nh, per = 16, 250
     else:
         grid(1, 4, 1, 1, "n4k1")
@@ -219,6 +222,10 @@ def plan(tier, seed):
         grid(1, 3, 3, 1, "n3k3")
         grid(5, 5, 1, 1, "n5k1")
         grid(5, 5, 2, 8, "n5k2")
+        for kv in range(len(gdocs.KEY_VARIANTS)):
+            grid(1, 5, 1, 1, "kv%d-n5k1" % kv, keyvar=kv, parts=2)
+            grid(1, 4, 2, 1, "kv%d-n4k2" % kv, keyvar=kv, parts=8)
+            grid(1, 3, 3, 1, "kv%d-n3k3" % kv, keyvar=kv, parts=8)
         nh, per = 64, 1500
     for i in range(nh):
         shards.append({"kind": "hyp", "seed": seed * 1000 + i,
@@ -241,6 +248,18 @@ def _run_grid(shard, res, dl):
     for n in range(shard["n_lo"], shard["n_hi"] + 1):
         specs.extend(gdocs.specs_exact(n))
     paths = _paths(shard["k"])
+    if shard.get("keyvar") is not None:
+        # the same grid moved onto another key: only documents holding the
+        # replaced key and paths naming it
+        _, pairs, textmap = gdocs.KEY_VARIANTS[shard["keyvar"]]
+        specs = [gdocs.remap_keys(s, pairs) for s in specs
+                 if any(gdocs.has_key(s, old) for old, _ in pairs)]
+        paths = [_prep([("key", textmap[s[1]]) if s[0] == "key" and
+                        s[1] in textmap else s for s in prepared[0]])
+                 for prepared in paths
+                 if any(s[0] == "key" and s[1] in textmap
+                        for s in prepared[0])]
+        res.label("keyvar:" + gdocs.KEY_VARIANTS[shard["keyvar"]][0])
     stride, offset = shard["stride"], shard["offset"]
     part, parts = shard["part"], shard["parts"]
     counter = 0
